@@ -250,6 +250,8 @@ pub fn main(args: &[String]) {
             "search" => replay_search(&doc, &mut t),
             "stab" => replay_stab(&doc, &mut t),
             "gen" => crate::replay_gen::replay_gen(&doc, &mut t),
+            "generr" => crate::replay_gen::replay_generr(&doc, &mut t),
+            "prop" => crate::replay_gen::replay_prop(&doc, &mut t),
             "csv" => crate::replay_csv::replay_csv(&doc, &mut t),
             _ => crate::replay_str::replay(&ctx, &doc, &mut t),
         }
